@@ -133,6 +133,30 @@ def eq_mod_closure(a, b, lifted):
     return False
 
 
+def instance_mod_closure(sig, act, lifted, env):
+    """act is an instance of the generic signature sig, except that closure environment structs stand for function types"""
+    if sig.get("t") == "param":
+        if sig["n"] in env:
+            return eq_mod_closure(env[sig["n"]], act, lifted)
+        env[sig["n"]] = act
+        return True
+    if act.get("t") == "struct" and act.get("n") in lifted and sig.get("t") == "fn":
+        return True
+    if sig.get("t") != act.get("t"):
+        return False
+    t = sig["t"]
+    if t == "tuple":
+        return len(sig["ts"]) == len(act["ts"]) and all(instance_mod_closure(x, y, lifted, env) for x, y in zip(sig["ts"], act["ts"]))
+    if t == "fn":
+        return len(sig["ps"]) == len(act["ps"]) and all(instance_mod_closure(x, y, lifted, env) for x, y in zip(sig["ps"], act["ps"])) \
+            and instance_mod_closure(sig["r"], act["r"], lifted, env)
+    if t in ("vec", "ref"):
+        return instance_mod_closure(sig["e"], act["e"], lifted, env)
+    if t == "array":
+        return sig["len"] == act["len"] and instance_mod_closure(sig["e"], act["e"], lifted, env)
+    return sig == act
+
+
 def identity_of(err, lifted, prog):
     return _identity_of(err, lifted) + ":" + prog
 
@@ -140,6 +164,11 @@ def identity_of(err, lifted, prog):
 def _identity_of(err, lifted):
     if err["stage"] in ("lift", "anf") and err["a"].get("t") != "-" and err["b"].get("t") != "-" and err["a"] != err["b"] \
             and eq_mod_closure(err["a"], err["b"], lifted):
+        return "ir:closure-environment-struct-where-function-type-is-declared"
+    # a generic builtin (ref, vec_push, ..) applied to a closure: the type parameter stands for the environment struct in the
+    # argument and for the declared function type in the result
+    if err["stage"] in ("lift", "anf") and err["rule"] == "call-not-an-instance-of-signature" and err["a"].get("t") == "fn" \
+            and err["b"].get("t") == "fn" and instance_mod_closure(err["a"], err["b"], lifted, {}):
         return "ir:closure-environment-struct-where-function-type-is-declared"
     return f"ir:{err['stage']}:{err['rule']}"
 
